@@ -94,6 +94,28 @@ pub enum Obs {
     Mark(Vec<String>),
 }
 
+/// canonical rendering of an event with its payload, shared by reference and recorder normalisation
+pub fn fmt_event(name: &str, params: &[(String, String)], content: Option<&str>) -> String {
+    let mut s = name.to_string();
+    if !params.is_empty() {
+        let mut p: Vec<String> = params.iter().map(|(k, v)| format!("{}={}", k, v)).collect();
+        p.sort();
+        s.push_str(&format!("{{{}}}", p.join(",")));
+    }
+    if let Some(c) = content {
+        s.push_str(&format!("<{}>", c));
+    }
+    s
+}
+
+impl Ev {
+    pub fn show(&self) -> String {
+        let p: Vec<(String, String)> = self.data.iter().map(|(k, v)| (k.clone(), v.show())).collect();
+        let c = self.content.as_ref().map(|c| c.show());
+        fmt_event(&self.name, &p, c.as_deref())
+    }
+}
+
 pub const CANCEL_EVENT: &str = "error.platform.cancel";
 
 #[derive(Clone, Debug, PartialEq, Eq, Hash)]
@@ -116,6 +138,8 @@ pub struct Ref<'a> {
     pub out: Vec<Obs>,
     /// number of dequeue attempts on the external queue the implementation is expected to make
     pub dequeues: usize,
+    /// the macrostep did not terminate within the step budget (document never goes idle)
+    pub diverged: bool,
 }
 
 type TRef = (Nx, usize);
@@ -138,6 +162,7 @@ impl<'a> Ref<'a> {
             },
             out: vec![],
             dequeues: 0,
+            diverged: false,
         }
     }
 
@@ -147,6 +172,7 @@ impl<'a> Ref<'a> {
             st,
             out: vec![],
             dequeues: 0,
+            diverged: false,
         }
     }
 
@@ -222,12 +248,19 @@ impl<'a> Ref<'a> {
     }
 
     fn drain_external(&mut self) {
+        let mut guard = 0;
         while self.st.running {
+            guard += 1;
+            if guard > 100 {
+                self.diverged = true;
+                self.st.running = false;
+                return;
+            }
             let ev = match self.st.xq.pop_front() {
                 Some(e) => e,
                 None => break,
             };
-            self.out.push(Obs::XRecv(ev.name.clone()));
+            self.out.push(Obs::XRecv(ev.show()));
             if ev.name == CANCEL_EVENT {
                 self.st.running = false;
                 self.exit_interpreter();
@@ -247,15 +280,17 @@ impl<'a> Ref<'a> {
         let mut guard = 0;
         while self.st.running {
             guard += 1;
-            if guard > 10_000 {
-                panic!("reference: macrostep does not terminate (non-conformant generated document)");
+            if guard > 300 {
+                self.diverged = true;
+                self.st.running = false;
+                return;
             }
             let mut sel = self.select(None);
             if sel.is_empty() {
                 match self.st.iq.pop_front() {
                     None => break,
                     Some(ev) => {
-                        self.out.push(Obs::IRecv(ev.name.clone()));
+                        self.out.push(Obs::IRecv(ev.show()));
                         self.st.event = Some(ev.clone());
                         sel = self.select(Some(&ev));
                     }
